@@ -216,6 +216,30 @@ def lifecycle(chk: Check, tier: str, with_model: bool) -> tuple[dict, list[dict]
                 chk.model_drift(f"TLC: {cfg}: violated {r.violated or r.errors[:1]}, expected {want}")
         cov["model_check"] = inst
     scs = qos_gen.lifecycle_scenarios(tier == "thorough")
+    # ... and operation sequences taken from the model itself (TLC -simulate on the repaired instance)
+    import shutil
+    import tempfile
+    d = tempfile.mkdtemp(prefix="vglsim_")
+    try:
+        n_sim = 60 if tier == "quick" else 600
+        r = tlc.run_tlc("MC_GwyLife", "MC_GwyLife_fix.cfg", simulate=f"file={d}/tr_,num={n_sim}", depth=45, seed=chk.seed + 11,
+                        workers=1, timeout=600)
+        if r.errors or r.violated:
+            raise tlc.MachineryFailure(f"TLC -simulate (GwyLife) failed: {r.violated} {r.errors[:2]}")
+        behs = tlc.read_sim_traces(f"{d}/tr_")
+    finally:
+        shutil.rmtree(d, ignore_errors=True)
+    from_model = [s for s in (qos_gen.lifecycle_from_behaviour(b, [2, 5]) for b in behs) if s is not None]
+    if len(from_model) < n_sim // 4:
+        raise tlc.MachineryFailure(f"GwyLife -simulate yielded {len(from_model)} usable behaviours of {n_sim}")
+    seen = set()
+    for s in from_model:      # distinct operation sequences only
+        key = json.dumps([s["events"], s["seq"]])
+        if key not in seen:
+            seen.add(key)
+            scs.append(s)
+    cov["behaviours_from_model"] = len(behs)
+    cov["distinct_model_sequences_run"] = len(seen)
     if len(scs) < 8:
         items = [_gw_work(s) for s in scs]
     else:
@@ -235,7 +259,8 @@ def lifecycle(chk: Check, tier: str, with_model: bool) -> tuple[dict, list[dict]
             if e["e"] in ("StartRet", "StopRet"):
                 key = f"{e['e']}:{e['k']}{':' + e['s'] if e['s'] else ''}"
                 ops[key] = ops.get(key, 0) + 1
-    cov.update({"scenarios": len(scs), "sequences": sorted({s["seq"] for s in scs}), "executions_folded_by_GwyLifeTrace": res["n"],
+    cov.update({"scenarios": len(scs), "sequences": sorted({s["seq"] for s in scs if not s["seq"].startswith("model:")}),
+                "sample_model_sequence": next((s["seq"] for s in scs if s["seq"].startswith("model:")), ""), "executions_folded_by_GwyLifeTrace": res["n"],
                 "executions_with_drift": len(res["rejects"]), "fold_states": res["states"], "operation_outcomes": ops})
     return cov, scs, items
 
